@@ -250,7 +250,7 @@ impl Prop for C06 {
     fn strategy(tier: Tier) -> BoxedStrategy<InsCase> {
         let max = 40u8;
         let elems = if tier == Tier::Quick { vec![ElemKind::U32, ElemKind::Tr, ElemKind::Zs, ElemKind::Bx] } else { vec![ElemKind::U32, ElemKind::Tr, ElemKind::Zs, ElemKind::Bx, ElemKind::Bx] };
-        (proptest::sample::select(elems), 0..=max, 0..=max, any::<bool>(), prop_oneof![Just(Axis::Row), Just(Axis::Col)], prop::bool::weighted(0.2), any::<u16>(), prop_oneof![8 => Just(0i8), 1 => Just(1i8), 1 => Just(-1i8), 1 => Just(2i8)], prop_oneof![9 => Just(0u64), 1 => Just(1u64), 1 => Just(2u64), 1 => Just(u64::MAX), 1 => Just(1u64 << 63)], src())
+        (proptest::sample::select(elems), prop_oneof![49 => 0..=max, 1 => 0u8..=120], prop_oneof![49 => 0..=max, 1 => 0u8..=120], any::<bool>(), prop_oneof![Just(Axis::Row), Just(Axis::Col)], prop::bool::weighted(0.2), any::<u16>(), prop_oneof![8 => Just(0i8), 1 => Just(1i8), 1 => Just(-1i8), 1 => Just(2i8)], prop_oneof![9 => Just(0u64), 1 => Just(1u64), 1 => Just(2u64), 1 => Just(u64::MAX), 1 => Just(1u64 << 63)], src())
             .prop_map(|(elem, cols, rows, exact_cap, axis, push, frac, dlen, past, srck)| {
                 let (cols, rows) = if cols == 0 || rows == 0 { (0, 0) } else { (cols, rows) };
                 let (dim, other) = if axis == Axis::Row { (rows, cols) } else { (cols, rows) };
@@ -569,7 +569,7 @@ impl Prop for C07 {
     }
     fn strategy(_tier: Tier) -> BoxedStrategy<RemCase> {
         let max = 40u8;
-        (proptest::sample::select(vec![ElemKind::U32, ElemKind::Tr, ElemKind::Zs, ElemKind::Bx]), 0..=max, 0..=max, any::<bool>(), prop_oneof![Just(Axis::Row), Just(Axis::Col)], prop::bool::weighted(0.2), any::<u16>(), prop_oneof![12 => Just(0u64), 1 => Just(1u64), 1 => Just(u64::MAX), 1 => Just(1u64 << 62)], prop_oneof![3 => drain_script(), 1 => prop::collection::vec(super::history::dstep(), 0..60)])
+        (proptest::sample::select(vec![ElemKind::U32, ElemKind::Tr, ElemKind::Zs, ElemKind::Bx]), prop_oneof![49 => 0..=max, 1 => 0u8..=120], prop_oneof![49 => 0..=max, 1 => 0u8..=120], any::<bool>(), prop_oneof![Just(Axis::Row), Just(Axis::Col)], prop::bool::weighted(0.2), any::<u16>(), prop_oneof![12 => Just(0u64), 1 => Just(1u64), 1 => Just(u64::MAX), 1 => Just(1u64 << 62)], prop_oneof![3 => drain_script(), 1 => prop::collection::vec(super::history::dstep(), 0..60)])
             .prop_map(|(elem, cols, rows, exact_cap, axis, pop, frac, past, script)| {
                 let (cols, rows) = if cols == 0 || rows == 0 { (0, 0) } else { (cols, rows) };
                 let dim = if axis == Axis::Row { rows } else { cols } as u64;
